@@ -3,8 +3,8 @@
    satisfy [ranges_wf] the loader does not panic, the loaded tree flattens back
    to the input tokens and exposes the attributes, blocks, labels and
    traversals of the ranges-AST; File.Bytes is the formatter's output.
-   Refuted on the faithful model: index keys that are neither string nor
-   number (a = foo[true]); labels lexed into several literal tokens ("a$b").
+   (Model of the code after the fixes d13351c, 1b2807b, 984f1c6: bool/null index
+   keys, tokens before the first label and multi-literal labels are kept.)
    No axioms. *)
 From HclV Require Import Base.Prelude Gen.TokenTypes Write.Format Write.Loader.
 From Coq Require Import Sorted Permutation.
@@ -354,7 +354,7 @@ Qed.
 (* ---- one traversal step ---- *)
 Lemma parse_step_ok toks lo hi s : ssorted toks ->
   in_order lo hi (s_range s) = true ->
-  step_tokens_ok true (s_kind s) (sel_r toks (s_range s)) = true ->
+  step_tokens_ok (s_kind s) (sel_r toks (s_range s)) = true ->
   exists n, parse_traversal_step s (sel toks lo hi)
             = Ok (sel toks lo (r_s (s_range s)), n, sel toks (r_e (s_range s)) hi)
     /\ build_tokens n = tokens (sel_r toks (s_range s)) /\ is_step n = true.
@@ -380,12 +380,12 @@ Proof.
     + destruct (partition_type TokenOBrack w) as [[[b ob] rest]|] eqn:EO; [|discriminate].
       destruct (partition_type TokenCBrack rest) as [[[key cb] rest2]|] eqn:EC; [|discriminate].
       apply partition_type_conserve in EO. apply partition_type_conserve in EC.
-      destruct kk; simpl in Hk; try discriminate.
-      * eexists. split; [reflexivity|]. split; [|reflexivity].
-        rewrite EO, EC. fl. reflexivity.
-      * destruct (has_ty_partition_type _ _ Hk) as (vb & v & va & E). rewrite E.
-        eexists. split; [reflexivity|]. split; [|reflexivity].
-        apply partition_type_conserve in E. rewrite EO, EC, E. fl. reflexivity.
+      destruct kk; simpl in Hk;
+        try (eexists; split; [reflexivity|]; split; [|reflexivity];
+             rewrite EO, EC; fl; reflexivity).
+      destruct (has_ty_partition_type _ _ Hk) as (vb & v & va & E). rewrite E.
+      eexists. split; [reflexivity|]. split; [|reflexivity].
+      apply partition_type_conserve in E. rewrite EO, EC, E. fl. reflexivity.
   - discriminate.
 Qed.
 
@@ -404,7 +404,7 @@ Proof. apply steps_end_last_gen. Qed.
 Definition step_toks (toks : list ltok) (s : nstep) : list tok := tokens (sel_r toks (s_range s)).
 
 Lemma parse_steps_ok toks : ssorted toks -> forall steps lo hi,
-  wf_steps true toks lo hi steps = true -> lo <= hi ->
+  wf_steps toks lo hi steps = true -> lo <= hi ->
   exists cs, parse_steps steps (sel toks lo hi) = Ok (cs, sel toks (steps_end lo steps) hi)
     /\ flat cs = tokens (sel toks lo (steps_end lo steps))
     /\ map build_tokens (filter is_step cs) = map (step_toks toks) steps
@@ -428,7 +428,7 @@ Qed.
 Definition trav_toks (toks : list ltok) (t : ntrav) : list (list tok) := map (step_toks toks) t.
 
 Lemma parse_trav_ok toks lo hi t : ssorted toks ->
-  wf_trav true toks lo hi t = true ->
+  wf_trav toks lo hi t = true ->
   exists n, parse_traversal t (sel toks lo hi)
             = Ok (sel toks lo (r_s (trav_range t)), n, sel toks (r_e (trav_range t)) hi)
     /\ build_tokens n = tokens (sel_r toks (trav_range t))
@@ -455,7 +455,7 @@ Definition node_travs (cs : list node) : list (list (list tok)) :=
   map (fun t => map build_tokens (filter is_step (children t))) (filter (is_inner KTraversal) cs).
 
 Lemma parse_travs_ok toks : ssorted toks -> forall ts lo hi,
-  wf_travs true toks lo hi ts = true ->
+  wf_travs toks lo hi ts = true ->
   exists cs, parse_travs ts (sel toks lo hi) = Ok cs
     /\ flat cs = tokens (sel toks lo hi)
     /\ node_travs cs = expr_toks toks ts.
@@ -551,7 +551,7 @@ Lemma parse_body_item_block type_r label_rs open_r close_r body_r items from :
       let '(before1, type_toks, from1) := partition within type_r in
       match type_toks with
       | [t] =>
-          let '(_, labels_node, from2) := parse_block_labels label_rs from1 in
+          let '(before_labels, labels_node, from2) := parse_block_labels label_rs from1 in
           let '(before2, obrace, from3) := partition from2 open_r in
           let '(body_toks, cbrace, from4) := partition from3 close_r in
           match parse_body_with parse_body_item body_r items body_toks with
@@ -560,7 +560,7 @@ Lemma parse_body_item_block type_r label_rs open_r close_r body_r items from :
               Ok (before,
                   Inner KBlock
                     ([Leaf LComments (tokens lead)] ++ raw before1 ++ [Leaf LIdentifier [lt t]]
-                     ++ [labels_node] ++ raw before2 ++ raw obrace
+                     ++ raw before_labels ++ [labels_node] ++ raw before2 ++ raw obrace
                      ++ raw bbefore ++ [body] ++ raw bafter
                      ++ raw cbrace ++ raw from4 ++ raw linec ++ raw nl),
                   after)
@@ -576,7 +576,7 @@ Hypothesis Hs : ssorted toks.
 
 (* ---- attribute ---- *)
 Lemma parse_attribute_ok src name_r eq_r e lead linec nl :
-  wf_item true toks (NAttr src name_r eq_r e) = true ->
+  wf_item toks (NAttr src name_r eq_r e) = true ->
   exists n, parse_attribute name_r eq_r e (sel_r toks src) lead linec nl = Ok n
     /\ build_tokens n = tokens lead ++ tokens (sel_r toks src) ++ tokens linec ++ tokens nl
     /\ summ_of n = [ast_summ toks (NAttr src name_r eq_r e)].
@@ -611,7 +611,7 @@ Proof.
       rewrite find_raw by reflexivity. simpl. exact Mc.
 Qed.
 
-(* ---- labels ---- *)
+(* ---- block labels ---- *)
 Fixpoint lend (lo : Z) (rs : list rng) : Z :=
   match rs with [] => lo | r :: rest => lend (r_e r) rest end.
 Lemma lend_labels_end rs : forall lo, lend lo rs = labels_end lo rs.
@@ -646,31 +646,29 @@ Proof.
 Qed.
 
 Lemma parse_block_labels_ok rs lo hi0 hi :
-  wf_labels toks lo hi0 rs = true -> lo <= hi0 -> hi0 <= hi ->
+  wf_labels lo hi0 rs = true -> lo <= hi0 -> hi0 <= hi ->
   exists ba n, parse_block_labels rs (sel toks lo hi) = (ba, n, sel toks (lend lo rs) hi)
-    /\ build_tokens n = tokens (sel toks lo (lend lo rs))
+    /\ tokens ba ++ build_tokens n = tokens (sel toks lo (lend lo rs))
     /\ is_inner KLabels n = true
     /\ filter is_label (children n) = map (fun r => label_node (sel_r toks r)) rs
     /\ lo <= lend lo rs <= hi0.
 Proof.
-  intros Hw L1 L2. destruct rs as [|r rest].
+  unfold wf_labels. intros Hw L1 L2. destruct rs as [|r rest].
   - simpl. do 2 eexists. split; [reflexivity|]. rewrite sel_empty by lia. repeat split; lia.
-  - unfold wf_labels in Hw. apply andb_true_iff in Hw as [N Hw]. apply is_nil_inv in N.
-    simpl in Hw. apply andb_true_iff in Hw as [H1 H2].
+  - simpl in Hw. apply andb_true_iff in Hw as [H1 H2].
     apply in_order_spec in H1 as (O1 & O2 & O3).
     destruct (parse_labels_rest_ok rest (r_e r) hi0 hi H2 O3 L2) as (cs & Ec & Fc & Lc & Sc & Bc).
     cbn [parse_block_labels]. rewrite partition_sel_in by (auto; lia). rewrite Ec.
     do 2 eexists. split; [reflexivity|]. split; [|split; [reflexivity|split]].
-    + fl. rewrite label_node_tokens, Fc.
-      rewrite <- (sel_app toks lo (r_s r) (lend (r_e r) rest)) by (auto; lia).
-      rewrite N. simpl. rewrite <- tokens_app. rewrite sel_app by (auto; lia). reflexivity.
+    + fl. rewrite label_node_tokens, Fc. rewrite <- !tokens_app.
+      rewrite sel_app by (auto; lia). rewrite sel_app by (auto; lia). reflexivity.
     + simpl. rewrite label_node_is_label, Lc. reflexivity.
     + simpl. lia.
 Qed.
 
 (* ---- items and bodies ---- *)
 Definition item_spec (it : nitem) : Prop :=
-  wf_item true toks it = true -> forall lo hi ac an,
+  wf_item toks it = true -> forall lo hi ac an,
   in_order lo hi (item_range it) = true ->
   partition_line_end_tokens (sel toks (r_e (item_range it)) hi) = Ok (ac, an) ->
   exists before n,
@@ -681,7 +679,7 @@ Definition item_spec (it : nitem) : Prop :=
     /\ summ_of n = [ast_summ toks it].
 
 Lemma parse_items_ok items : Forall item_spec items -> forall lo hi,
-  wf_items toks (wf_item true toks) lo hi items = true ->
+  wf_items toks (wf_item toks) lo hi items = true ->
   exists cs, parse_items parse_body_item items (sel toks lo hi) = Ok cs
     /\ flat cs = tokens (sel toks lo hi)
     /\ summs cs = map (ast_summ toks) items.
@@ -713,7 +711,7 @@ Lemma lead_idx_le l : (partition_lead_comment_tokens l <= length l)%nat.
 Proof. unfold partition_lead_comment_tokens. lia. Qed.
 
 Lemma parse_body_ok body_r items : Forall item_spec items -> forall lo hi,
-  wf_body toks (wf_item true toks) lo hi body_r items = true ->
+  wf_body toks (wf_item toks) lo hi body_r items = true ->
   exists b n a, parse_body_with parse_body_item body_r items (sel toks lo hi) = Ok (b, n, a)
     /\ tokens b ++ build_tokens n ++ tokens a = tokens (sel toks lo hi)
     /\ summ_of n = map (ast_summ toks) items
@@ -792,7 +790,7 @@ Proof.
     apply in_order_spec in H4 as (Q1 & Q2 & Q3). rewrite <- lend_labels_end in Q1.
     assert (LB : r_e type_r <= r_s open_r).
     { destruct label_rs as [|r0 rest]; [simpl in Q1; lia|].
-      unfold wf_labels in H3. apply andb_true_iff in H3 as [_ H3]. simpl in H3.
+      unfold wf_labels in H3. simpl in H3.
       apply andb_true_iff in H3 as [H3 _]. apply in_order_spec in H3. lia. }
     destruct (parse_block_labels_ok label_rs (r_e type_r) (r_s open_r) (r_e close_r) H3 LB ltac:(lia))
       as (ba & ln & Eln & Fln & Kln & Lln & Bln).
@@ -815,7 +813,8 @@ Proof.
       rewrite <- (firstn_slice _ ac an) by (eapply line_end_le; eauto).
       rewrite (sel_empty toks (r_s type_r) (r_s type_r)) by lia.
       rewrite (sel_empty toks (r_e close_r) (r_e close_r)) by lia.
-      fl. rewrite Fln. f_equal. f_equal.
+      fl. f_equal. f_equal.
+      rewrite (app_assoc (tokens ba)), Fln.
       rewrite <- (sel_app toks (r_s type_r) (r_e type_r) (r_e close_r)) by (auto; lia).
       rewrite <- (sel_app toks (r_e type_r) (lend (r_e type_r) label_rs) (r_e close_r)) by (auto; lia).
       rewrite <- (sel_app toks (lend (r_e type_r) label_rs) (r_s open_r) (r_e close_r)) by (auto; lia).
@@ -826,7 +825,7 @@ Proof.
     + rewrite (sel_empty toks (r_s type_r) (r_s type_r)) by lia.
       simpl. f_equal. f_equal.
       * unfold range_bytes, sel_r. rewrite Ht. simpl. rewrite app_nil_r. reflexivity.
-      * unfold labels_of. simpl. exact Lln.
+      * unfold labels_of. simpl. rewrite find_raw by reflexivity. simpl. exact Lln.
       * match goal with |- concat (map summ_of ?x) = ?y => change (summs x = y) end.
         autorewrite with sm. simpl. rewrite Sb, app_nil_r. reflexivity.
 Qed.
@@ -857,14 +856,13 @@ Proof.
 Qed.
 Lemma sort_items_sorted l : StronglySorted le_start (sort_items l).
 Proof. induction l; simpl; [constructor|]. apply insert_item_sorted. assumption. Qed.
-
 Lemma sort_items_sorts l :
   Permutation (sort_items l) l
   /\ StronglySorted (fun a b => r_s (item_range a) <= r_s (item_range b)) (sort_items l).
 Proof. split; [apply sort_items_perm|apply sort_items_sorted]. Qed.
 
 (* ---- the loader on a well-formed file ---- *)
-Lemma load_sorted_ok toks f : wf_file true toks f = true ->
+Lemma load_sorted_ok toks f : wf_file toks f = true ->
   exists tree, load_sorted toks f = Ok tree
     /\ build_tokens tree = tokens toks
     /\ summ_of tree = map (ast_summ toks) (f_items f).
@@ -888,7 +886,7 @@ Proof.
   exists tree. split; assumption.
 Qed.
 
-Theorem accessors_complete toks f tree :
+Theorem accessors_summ toks f tree :
   ranges_wf toks f = true -> load toks f = Ok tree ->
   summ_of tree = map (ast_summ toks) (f_items (sort_file f)).
 Proof.
@@ -897,46 +895,78 @@ Proof.
 Qed.
 
 (* ---- labels ---- *)
-Lemma label_current_simple l : label_simple (tokens l) = true ->
-  label_current (label_node l) = Some (label_source (tokens l)).
+Lemma quoted_body_spec rest : forall mid, quoted_body rest = Some mid ->
+  exists c, rest = mid ++ [c] /\ is (ty c) TokenCQuote = true.
 Proof.
-  destruct l as [|a [|b [|c [|d r]]]]; simpl; try discriminate.
-  - unfold label_node, lty. simpl. intros H. rewrite H. simpl. rewrite H. reflexivity.
-  - intros H. rewrite H. unfold quoted_text. simpl.
-    apply andb_true_iff in H as [H1 H2].
-    assert (is (ty (lt a)) TokenQuotedLit = false) as ->
-      by (unfold is in *; apply Z.eqb_eq in H1; rewrite H1; reflexivity).
-    assert (is (ty (lt b)) TokenQuotedLit = false) as ->
-      by (unfold is in *; apply Z.eqb_eq in H2; rewrite H2; reflexivity).
-    reflexivity.
-  - intros H. rewrite H. unfold quoted_text. simpl.
-    apply andb_true_iff in H as [H H3]. apply andb_true_iff in H as [H1 H2].
-    assert (is (ty (lt a)) TokenQuotedLit = false) as ->
-      by (unfold is in *; apply Z.eqb_eq in H1; rewrite H1; reflexivity).
-    assert (is (ty (lt c)) TokenQuotedLit = false) as ->
-      by (unfold is in *; apply Z.eqb_eq in H3; rewrite H3; reflexivity).
-    rewrite H2. simpl. rewrite app_nil_r. reflexivity.
+  induction rest as [|c r IH]; intros mid H; [discriminate|].
+  cbn [quoted_body] in H. destruct r as [|c' r'].
+  - destruct (is (ty c) TokenCQuote) eqn:E; [|discriminate].
+    inversion H; subst. exists c. split; [reflexivity|exact E].
+  - destruct (quoted_body (c' :: r')) as [m|] eqn:E; [|discriminate].
+    inversion H; subst. destruct (IH m eq_refl) as (c0 & E0 & K). exists c0.
+    rewrite E0. split; [reflexivity|exact K].
 Qed.
 
-Lemma labels_api_simple toks rs :
-  forallb (fun r => label_simple (tokens (sel_r toks r))) rs = true ->
+Lemma is_neq a b c : is a b = true -> b <> c -> is a c = false.
+Proof. unfold is. intros H N. apply Z.eqb_eq in H. subst. apply Z.eqb_neq. exact N. Qed.
+
+Lemma filter_all_quoted mid : all_quoted_lit mid = true ->
+  filter (fun t => is (ty t) TokenQuotedLit) mid = mid.
+Proof.
+  intros H. apply filter_true. apply Forall_forall. intros t Ht.
+  unfold all_quoted_lit in H. rewrite forallb_forall in H. auto.
+Qed.
+
+(* Current() on the node built for a label returns the source's label text *)
+Lemma label_current_ok l : label_ok (tokens l) = true ->
+  label_current (label_node l) = Some (label_source (tokens l)).
+Proof.
+  destruct l as [|a [|b r]].
+  - discriminate.
+  - change (tokens [a]) with [lt a]. cbn [label_ok label_source]. intros H.
+    unfold label_node, lty. rewrite H. cbn [label_current]. rewrite H. reflexivity.
+  - intros H. change (label_node (a :: b :: r)) with (Leaf LQuoted (tokens (a :: b :: r))).
+    change (tokens (a :: b :: r)) with (lt a :: lt b :: tokens r) in *.
+    cbn [label_ok label_current label_source] in *.
+    apply andb_true_iff in H as [HO H]. rewrite HO.
+    destruct (quoted_body (lt b :: tokens r)) as [mid|] eqn:EQ; [|discriminate].
+    rewrite H. f_equal. unfold quoted_text.
+    destruct (quoted_body_spec _ _ EQ) as (c & E & HC). rewrite E.
+    cbn [filter]. rewrite (is_neq _ _ TokenQuotedLit HO) by discriminate.
+    rewrite filter_app, (filter_all_quoted _ H). cbn [filter].
+    rewrite (is_neq _ _ TokenQuotedLit HC) by discriminate. rewrite app_nil_r. reflexivity.
+Qed.
+
+Lemma labels_api_ok toks rs :
+  forallb (fun r => label_ok (tokens (sel_r toks r))) rs = true ->
   labels_api (map (fun r => label_node (sel_r toks r)) rs)
   = map (fun r => label_source (tokens (sel_r toks r))) rs.
 Proof.
   induction rs as [|r rest IH]; simpl; intros H; [reflexivity|].
   apply andb_true_iff in H as [H1 H2].
-  unfold labels_api in *. simpl. rewrite (label_current_simple _ H1). simpl.
+  unfold labels_api in *. simpl. rewrite (label_current_ok _ H1). simpl.
   f_equal. apply IH. exact H2.
 Qed.
 
-Theorem accessors_complete_partial toks f tree :
-  ranges_wf toks f = true -> load toks f = Ok tree ->
-  summ_of tree = map (ast_summ toks) (f_items (sort_file f))
-  /\ (forall rs, forallb (fun r => label_simple (tokens (sel_r toks r))) rs = true ->
-        labels_api (map (fun r => label_node (sel_r toks r)) rs)
-        = map (fun r => label_source (tokens (sel_r toks r))) rs).
+Lemma summ_api_ast toks it : labels_ok toks it = true ->
+  summ_api (ast_summ toks it) = ast_api toks it.
 Proof.
-  intros H E. split; [eapply accessors_complete; eauto|apply labels_api_simple].
+  induction it as [src name_r eq_r e|type_r label_rs open_r close_r body_r items IH] using nitem_ind';
+    intros H; [reflexivity|].
+  cbn [labels_ok] in H. apply andb_true_iff in H as [H1 H2].
+  cbn [ast_summ summ_api ast_api]. f_equal.
+  - apply labels_api_ok. exact H1.
+  - rewrite map_map. rewrite forallb_forall in H2. rewrite Forall_forall in IH.
+    apply map_ext_in. intros x Hx. apply IH; auto.
+Qed.
+
+(* what Attributes()/Blocks()/Type()/Labels()/Variables() return is what the
+   native AST says, for every item at every depth *)
+Theorem accessors_complete : accessors_complete_stmt.
+Proof.
+  intros toks f tree H L E. rewrite (accessors_summ toks f tree H E), map_map.
+  unfold file_labels_ok in L. rewrite forallb_forall in L.
+  apply map_ext_in. intros it Hit. apply summ_api_ast. auto.
 Qed.
 
 (* ---- File.Bytes ---- *)
@@ -948,76 +978,34 @@ Proof.
   rewrite E' in E. inversion E; subst. unfold file_bytes. rewrite F. reflexivity.
 Qed.
 
-(* ---- refutations ---- *)
 Definition mk (ty_ : Z) (bs : list Z) (g sp_ s e : Z) : ltok := mkL (mkTok ty_ bs g sp_) s e.
-
-(* a = foo[true]\n   as lexed and parsed by Go *)
-Definition w1_toks : list ltok :=
-  [mk 73 [97] 1 0 0 1; mk 61 [61] 1 1 2 3; mk 73 [102;111;111] 3 1 4 7; mk 91 [91] 1 0 7 8;
-   mk 73 [116;114;117;101] 4 0 8 12; mk 93 [93] 1 0 12 13; mk 10 [10] 1 0 13 14; mk 9220 [] 0 0 14 14].
-Definition w1_file : nfile :=
-  mkFile (mkR 0 14)
-    [NAttr (mkR 0 13) (mkR 0 1) (mkR 2 3)
-       (mkExpr (mkR 4 13) [[mkStep SRoot (mkR 4 7); mkStep (SIndex KBool) (mkR 7 13)]])].
-
-Theorem load_flatten_refuted :
-  exists toks f tree,
-    ranges_wf_anykey toks f = true /\ ranges_wf toks f = false /\
-    load toks f = Ok tree /\ build_tokens tree <> tokens toks /\
-    length (build_tokens tree) = 7%nat /\ length toks = 8%nat.
-Proof.
-  exists w1_toks, w1_file.
-  destruct (load w1_toks w1_file) as [tree|p] eqn:E; [|vm_compute in E; discriminate].
-  exists tree. vm_compute in E. inversion E; subst.
-  repeat split; try (vm_compute; reflexivity). vm_compute. discriminate.
-Qed.
-
-Corollary load_flatten_anykey_false : ~ load_flatten_anykey_stmt.
-Proof.
-  intros H. destruct load_flatten_refuted as (toks & f & tree & W & _ & E & N & _).
-  destruct (H toks f W) as (tree' & E' & F). rewrite E' in E. inversion E; subst. contradiction.
-Qed.
-
-(* b "a$b" {}\n   as lexed and parsed by Go *)
-Definition w2_toks : list ltok :=
-  [mk 73 [98] 1 0 0 1; mk 171 [34] 1 1 2 3; mk 81 [97] 1 0 3 4; mk 81 [36] 1 0 4 5; mk 81 [98] 1 0 5 6;
-   mk 187 [34] 1 0 6 7; mk 123 [123] 1 1 8 9; mk 125 [125] 1 0 9 10; mk 10 [10] 1 0 10 11; mk 9220 [] 0 0 11 11].
-Definition w2_file : nfile :=
-  mkFile (mkR 0 11) [NBlock (mkR 0 1) [mkR 2 7] (mkR 8 9) (mkR 9 10) (mkR 8 10) []].
-
-Theorem accessors_labels_refuted :
-  exists toks f tree,
-    ranges_wf toks f = true /\ load toks f = Ok tree /\
-    build_tokens tree = tokens toks /\
-    exists t ls b, In (SumBlock t ls b) (summ_of tree) /\
-      labels_api ls = [] /\ map (fun n => label_source (build_tokens n)) ls = [[97; 36; 98]].
-Proof.
-  exists w2_toks, w2_file.
-  destruct (load w2_toks w2_file) as [tree|p] eqn:E; [|vm_compute in E; discriminate].
-  exists tree. vm_compute in E. inversion E; subst.
-  split; [vm_compute; reflexivity|]. split; [reflexivity|]. split; [vm_compute; reflexivity|].
-  do 3 eexists. split; [vm_compute; left; reflexivity|]. split; vm_compute; reflexivity.
-Qed.
-
-Corollary accessors_labels_false : ~ accessors_labels_stmt.
-Proof.
-  intros H. destruct accessors_labels_refuted as (toks & f & tree & W & E & _ & t & ls & b & I & A & B).
-  specialize (H toks f tree W E t ls b I). rewrite A, B in H. discriminate.
-Qed.
 
 (* the hypotheses of load_flatten are satisfiable on a non-trivial instance *)
 Definition ex_toks : list ltok :=
-  [mk 73 [98] 1 0 0 1; mk 171 [34] 1 1 2 3; mk 81 [108] 1 0 3 4; mk 187 [34] 1 0 4 5; mk 123 [123] 1 1 6 7;
-   mk 10 [10] 1 0 7 8;
-   mk 73 [97] 1 2 10 11; mk 61 [61] 1 1 12 13; mk 73 [102] 1 1 14 15; mk 46 [46] 1 0 15 16; mk 73 [103] 1 0 16 17;
-   mk 91 [91] 1 0 17 18; mk 78 [48] 1 0 18 19; mk 93 [93] 1 0 19 20; mk 67 [35;99;10] 3 1 21 24;
-   mk 125 [125] 1 0 24 25; mk 10 [10] 1 0 25 26; mk 9220 [] 0 0 26 26].
-(* b "l" {\n  a = f.g[0] #c\n}\n *)
+  [mk 73 [98] 1 0 0 1; mk 67 [47;42;99;42;47] 5 1 2 7; mk 171 [34] 1 1 8 9; mk 81 [97] 1 0 9 10;
+   mk 81 [36] 1 0 10 11; mk 81 [98] 1 0 11 12; mk 187 [34] 1 0 12 13; mk 123 [123] 1 1 14 15;
+   mk 10 [10] 1 0 15 16;
+   mk 73 [97] 1 2 18 19; mk 61 [61] 1 1 20 21; mk 73 [102] 1 1 22 23; mk 46 [46] 1 0 23 24;
+   mk 73 [103] 1 0 24 25; mk 91 [91] 1 0 25 26; mk 73 [116;114;117;101] 4 0 26 30; mk 93 [93] 1 0 30 31;
+   mk 67 [35;99;10] 3 1 32 35; mk 125 [125] 1 0 35 36; mk 10 [10] 1 0 36 37; mk 9220 [] 0 0 37 37].
+(* b /*c*/ "a$b" {\n  a = f.g[true] #c\n}\n   as lexed and parsed by Go *)
 Definition ex_file : nfile :=
-  mkFile (mkR 0 26)
-    [NBlock (mkR 0 1) [mkR 2 5] (mkR 6 7) (mkR 24 25) (mkR 6 25)
-       [NAttr (mkR 10 20) (mkR 10 11) (mkR 12 13)
-          (mkExpr (mkR 14 20) [[mkStep SRoot (mkR 14 15); mkStep SAttr (mkR 15 17);
-                                mkStep (SIndex KNumber) (mkR 17 20)]])]].
-Lemma ex_wf : ranges_wf ex_toks ex_file = true.
-Proof. vm_compute. reflexivity. Qed.
+  mkFile (mkR 0 37)
+    [NBlock (mkR 0 1) [mkR 8 13] (mkR 14 15) (mkR 35 36) (mkR 14 36)
+       [NAttr (mkR 18 31) (mkR 18 19) (mkR 20 21)
+          (mkExpr (mkR 22 31) [[mkStep SRoot (mkR 22 23); mkStep SAttr (mkR 23 25);
+                                mkStep (SIndex KBool) (mkR 25 31)]])]].
+Lemma ex_wf : ranges_wf ex_toks ex_file = true /\ file_labels_ok ex_toks ex_file = true.
+Proof. split; vm_compute; reflexivity. Qed.
+
+(* on it the loader keeps all 21 tokens and Labels() reads the joined label a$b *)
+Lemma ex_load : exists tree, load ex_toks ex_file = Ok tree
+  /\ build_tokens tree = tokens ex_toks
+  /\ map summ_api (summ_of tree)
+     = [ABlock [98] [[97; 36; 98]]
+          [AAttr [97] [[ [mkTok 73 [102] 1 1]; [mkTok 46 [46] 1 0; mkTok 73 [103] 1 0];
+                         [mkTok 91 [91] 1 0; mkTok 73 [116;114;117;101] 4 0; mkTok 93 [93] 1 0] ]]]].
+Proof.
+  destruct (load ex_toks ex_file) as [tree|p] eqn:E; [|vm_compute in E; discriminate].
+  exists tree. vm_compute in E. inversion E; subst. repeat split; vm_compute; reflexivity.
+Qed.
